@@ -2111,3 +2111,620 @@ _VECWRITE_BUFFERED = '''    v = range(length)
 RECIPES += _pair(_VECWRITE_BUFFERED % "buf[:n]", _VECWRITE_BUFFERED % "buf", _VECWRITE_BODY, ["C13-R2"],
                  "_vecwrite: the lines collected in a buffer of 512 slots, written when full and (the filled part) at the end",
                  "the last, partial block is written with the stale rest of the buffer", file=W)
+
+
+# ====================================================================================================================== third hardening pass
+# constructs of the fourth blind round (N18: class patterns in `match`, the THRU loop as a `for` over the positions that skips what a run already
+# covered; N19: a memo dictionary filled at run time, defaults evaluated when a nested function is defined, functions returned by a helper,
+# decorators of the module, a nested function with *args) and refactorings of other kinds written in this pass (the other spellings of a memo, EAFP
+# guards, io.StringIO accumulators, constants of an IntEnum, `yield from`, tail recursion, `return` inside a loop, bound-method aliases, partial of
+# print, map over the format method).  Each behaviour-preserving form was run through pyyeti/tests/test_nastran.py, test_writer.py, the doctests
+# of bulk.py / writer.py and a differential battery of ~5000 calls in a scratch copy of the repository.
+_THRU_ALL = _THRU_LOOP + '''    if len(fields) > init_length:
+        wtcard8(f, fields)
+'''
+
+_THRU_FOR = '''    length = len(seq)
+    fields = init_func([], False)
+    init_length = len(fields)
+    end = -1
+    for start in range(length):
+        if start <= end:
+            # already written as part of a THRU range
+            continue
+        end = _find_sequence(seq, start)
+        if end > start:
+            if len(fields) > init_length:
+                fields = init_func(fields)
+            fields.extend([seq[start], "THRU", seq[end]])
+            fields = init_func(fields)
+        else:
+            fields.append(seq[start])
+        if len(fields) == 9:
+            fields = init_func(fields)
+    if len(fields) <= init_length:
+        return
+    wtcard8(f, fields)
+'''
+
+RECIPES += (
+    _pair(_THRU_FOR, _THRU_FOR.replace("if start <= end:", "if start < end:"), _THRU_ALL, ["C13-R4"],
+          "_wt_with_thru: a `for` over the positions; those inside the run written last are skipped", "the last element of a run is written again as a single id")
+    + [("C13", "break", ["C13-R4"], B, _THRU_ALL, _THRU_FOR.replace("    end = -1\n", "    end = 0\n"),
+        "_wt_with_thru as a `for` over the positions -- the first element is taken for written"),
+       ("C13", "break", ["C13-R4"], B, _THRU_ALL, _THRU_FOR.replace("for start in range(length):", "for start in range(length - 1):"),
+        "_wt_with_thru as a `for` over the positions -- the last position is never visited"),
+       ("C13", "break", ["C13-R4"], B, _THRU_ALL, _THRU_FOR.replace('"THRU", seq[end]])', '"THRU", seq[end - 1]])'),
+        "_wt_with_thru as a `for` over the positions -- a run is written one element short")]
+)
+
+_VECWRITE_LOOP = '''    for i, arg in enumerate(args):
+        if not isinstance(arg, str) and hasattr(arg, "__len__"):
+            if np.ndim(arg) == 2:
+                fncs.append(_get_matrow)
+                curlen = np.size(arg, 0)
+            elif len(arg) == 1:
+                fncs.append(_get_scalar1)
+                curlen = 1
+            else:
+                fncs.append(_get_itemi)
+                curlen = len(arg)
+            if curlen > 1:
+                if length > 1:
+                    if so is not None:
+                        if range(curlen)[so] != range(length)[so]:
+                            msg = (
+                                "length mismatch with slice object:"
+                                f" arg # {i + 1} is incompatible with "
+                                "previous args"
+                            )
+                            raise ValueError(msg)
+                    elif curlen != length:
+                        msg = (
+                            f"length mismatch: arg # {i + 1} has "
+                            f"length {curlen}; expected {length} or 1."
+                        )
+                        raise ValueError(msg)
+                length = curlen
+        else:
+            fncs.append(_get_scalar)
+'''
+
+RECIPES += [("C13", "neutral", [], W, _VECWRITE_LOOP, '''    for i, arg in enumerate(args):
+        match arg:
+            case str():
+                fncs.append(_get_scalar)
+                continue
+            case _ if not hasattr(arg, "__len__"):
+                fncs.append(_get_scalar)
+                continue
+        if np.ndim(arg) == 2:
+            fncs.append(_get_matrow)
+            curlen = np.size(arg, 0)
+        elif len(arg) == 1:
+            fncs.append(_get_scalar1)
+            continue
+        else:
+            fncs.append(_get_itemi)
+            curlen = len(arg)
+        if curlen <= 1:
+            continue
+        # have a vector; it must be compatible with any previous one
+        if length > 1 and so is not None and range(curlen)[so] != range(length)[so]:
+            msg = (
+                "length mismatch with slice object:"
+                f" arg # {i + 1} is incompatible with "
+                "previous args"
+            )
+            raise ValueError(msg)
+        elif length > 1 and so is None and curlen != length:
+            msg = (
+                f"length mismatch: arg # {i + 1} has "
+                f"length {curlen}; expected {length} or 1."
+            )
+            raise ValueError(msg)
+        length = curlen
+''', "vecwrite: strings and scalars sorted out by a match statement with a class pattern and a guarded wildcard")]
+
+# ---- memo dictionaries
+_GRIDS_MEMO = '''    def template(large_field, with_ps_seid):
+        def build():
+            if large_field:
+                string = "GRID*   {:16d}{:16d}" + form * 2 + "\\n*       " + form + "{:16d}"
+                if with_ps_seid:
+                    string += "{:>16}{:>16}"
+            else:
+                string = "GRID    {:8d}{:8d}" + form * %d + "{:8d}"
+                if with_ps_seid:
+                    string += "{:>8}{:>8}"
+            return string + "\\n"
+
+        return _memo_format("grid", form, large_field%s, build=build)
+
+    def write_cards(*trailing):
+        # `trailing` is either empty or has the PS and SEID fields
+        string = template(len(teststr) > 8, bool(trailing))
+        writer.vecwrite(
+            f, string, grids, cp, xyz[:, 0], xyz[:, 1], xyz[:, 2], cd, *trailing
+        )
+
+    if ps == seid == "":
+        write_cards()
+    else:
+        write_cards(ps, seid)
+
+
+# Format strings that only depend on a few discrete options are built once and kept here
+_FORMAT_MEMO = {}
+
+
+def _memo_format(*key, build):
+    """
+    Return the format string filed under `key`, calling ``build()``
+    to create it the first time it is asked for.
+    """
+    try:
+        return _FORMAT_MEMO[key]
+    except KeyError:
+        string = _FORMAT_MEMO[key] = build()
+        return string
+'''
+
+RECIPES += (
+    _pair(_GRIDS_MEMO % (3, ", with_ps_seid"), _GRIDS_MEMO % (4, ", with_ps_seid"), _GRIDS_BODY, ["C13-R1"],
+          "wtgrids: the template from a memo dictionary filled at run time (try / except KeyError, the value built by a closure), the cards written by "
+          "a nested function with *args", "a small-field card with four coordinate fields")
+)
+
+_GRIDS_ELSE_TAIL = '''        else:
+            string = "GRID    {:8d}{:8d}" + form * 3 + "{:8d}{:>8}{:>8}\\n"
+        writer.vecwrite(
+            f, string, grids, cp, xyz[:, 0], xyz[:, 1], xyz[:, 2], cd, ps, seid
+        )
+'''
+
+_GRIDS_MEMO_IN = '''        else:
+            string = _grid_template(form, False)
+        writer.vecwrite(
+            f, string, grids, cp, xyz[:, 0], xyz[:, 1], xyz[:, 2], cd, ps, seid
+        )
+
+
+_GRID_TEMPLATES = {}
+
+
+def _grid_template(form, large):
+    key = (form, large)
+    if key not in _GRID_TEMPLATES:
+        if large:
+            _GRID_TEMPLATES[key] = "GRID*   {:16d}{:16d}" + form * 2 + "\\n*       " + form + "{:16d}{:>16}{:>16}\\n"
+        else:
+            _GRID_TEMPLATES[key] = "GRID    {:8d}{:8d}" + form * %d + "{:8d}{:>8}{:>8}\\n"
+    return _GRID_TEMPLATES[key]
+'''
+
+RECIPES += (
+    _pair(_GRIDS_MEMO_IN % 3, _GRIDS_MEMO_IN % 4, _GRIDS_ELSE_TAIL, ["C13-R1"],
+          "wtgrids: a template from a memo dictionary tested with `in`", "a small-field card with four coordinate fields")
+    + [("C13", "neutral", [], B, _GRIDS_ELSE_TAIL, '''        else:
+            string = _grid_template(form, False)
+        writer.vecwrite(
+            f, string, grids, cp, xyz[:, 0], xyz[:, 1], xyz[:, 2], cd, ps, seid
+        )
+
+
+import functools
+
+
+@functools.lru_cache(maxsize=None)
+def _grid_template(form, large):
+    if large:
+        return "GRID*   {:16d}{:16d}" + form * 2 + "\\n*       " + form + "{:16d}{:>16}{:>16}\\n"
+    return "GRID    {:8d}{:8d}" + form * 3 + "{:8d}{:>8}{:>8}\\n"
+''', "wtgrids: a template from a helper cached by functools.lru_cache")]
+)
+
+_T1_MEMO_GET = '''
+
+_T1_LINES = {}
+
+
+def _t1_line(lead, form, pairs):
+    """format of one full line of a TABLED1 card"""
+    line = _T1_LINES.get((lead, form, pairs))
+    if line is None:
+        line = _T1_LINES[(lead, form, pairs)] = lead + form * %s + "\\n"
+    return line
+'''
+
+
+def _t1_get(pairs):
+    return (_T1_BODY.replace('f, "*       " + form * 2 + "\\n", t[:r:2]', 'f, _t1_line("*       ", form, 2), t[:r:2]')
+            .replace('                "        " + form * 4 + "\\n",\n', '                _t1_line("        ", form, 4),\n') + _T1_MEMO_GET % pairs)
+
+
+RECIPES += _pair(_t1_get("pairs"), _t1_get("(pairs + 1)"), _T1_BODY, ["C13-R1"],
+                 "tabled1: the template of a full line from a memo dictionary read with .get", "one pair too many on every full line")
+
+# ---- a default evaluated when the nested function is defined; a function made by a helper; a decorator of the module
+_T1_SMALL_STRIDED = '''        per = 4
+
+        def strided(k, step=%s):
+            # every `step`-th [time, data] pair of the full lines, starting with the k-th one
+            return t[k:r:step], d[k:r:step]
+
+        if rows:
+            columns = []
+            for k in range(per):
+                columns.extend(strided(k))
+            writer.vecwrite(f, "        " + form * per + "\\n", *columns)
+'''
+
+RECIPES += _pair(_T1_SMALL_STRIDED % "per", _T1_SMALL_STRIDED % "per + 1", _T1_SMALL_VEC, ["C13-R1"],
+                 "tabled1 small field: the columns from a nested function whose default stride is evaluated where it is defined, collected in a loop "
+                 "with a constant trip count", "stride 5 for four pairs per line")
+
+_DMIG_FACTORY = '''                        num_str = number_string(num)
+                        f.write(f"{'*':<8s}{gi:16d}{ci:16d}{num_str:s}\\n")
+
+
+def _dmig_number_formatter(mtype):
+    """
+    Return function that formats one matrix element for a DMIG entry
+    of type `mtype` (1 real, 2 double, 3 complex, 4 complex double).
+    """
+    if mtype < 3:  # real
+
+        def single(num):
+            return f"{num:16.9E}"
+
+    else:  # complex
+
+        def single(num):
+            return f"{num.%s:16.9E}{num.%s:16.9E}"
+
+    if mtype & 1 == 0:  # if even
+
+        def double(num, single=single):
+            return single(num).replace("E", "D")
+
+        return double
+    return single
+'''
+
+RECIPES += _pair(_DMIG_COLS.replace(_DMIG_TERM, "").replace("        for col in range(m.shape[1]):\n", "        number_string = _dmig_number_formatter(mtype)\n"
+                                                                                                    "        for col in range(m.shape[1]):\n") + _DMIG_FACTORY % ("real", "imag"),
+                 _DMIG_COLS.replace(_DMIG_TERM, "").replace("        for col in range(m.shape[1]):\n", "        number_string = _dmig_number_formatter(mtype)\n"
+                                                                                                    "        for col in range(m.shape[1]):\n") + _DMIG_FACTORY % ("imag", "real"),
+                 _DMIG_COLS, ["C13-R3"], "wtdmig: the number formatter made by a helper that returns one of the functions it defines (two `def`s of one name, "
+                 "a default that captures the first)", "imaginary part written before the real part")
+
+_CSUPER_DEF = '''@guitools.write_text_file
+def wtcsuper(f, superid, grids):
+    """
+    Writes a Nastran CSUPER card to a file.
+
+    Parameters
+    ----------
+    f : string or file_like or 1 or None
+        Either a name of a file, or is a file_like object as returned
+        by :func:`open` or :class:`io.StringIO`. Input as integer 1 to
+        write to stdout. Can also be the name of a directory or None;
+        in these cases, a GUI is opened for file selection.
+    superid : integer
+        Superelement ID
+    grids : 1d array_like
+        Vector of grid ids.
+
+    Returns
+    -------
+    None
+
+    Examples
+    --------
+    >>> from pyyeti import nastran
+    >>> import numpy as np
+    >>> nastran.wtcsuper(1, 100, np.arange(1, 10))
+    CSUPER       100       0       1       2       3       4       5       6
+                   7       8       9
+    """
+    f.write(f"CSUPER  {superid:8d}{0:8d}")
+    wtnasints(f, 4, grids)
+'''
+
+_CSUPER_DECORATED = '''def _ints_card(start):
+    """
+    Decorator for writers of "leading fields + list of integers" cards: the decorated function returns the formatted leading fields
+    and the vector of integers; the writing is done here, the first integer going to field number `start`.
+    """
+    import functools
+
+    def decorator(func):
+        @functools.wraps(func)
+        def wrapper(f, *args, **kwargs):
+            lead, ints = func(f, *args, **kwargs)
+            f.write(lead)
+            wtnasints(f, start, ints)
+
+        return wrapper
+
+    return decorator
+
+
+@guitools.write_text_file
+@_ints_card(start=%d)
+def wtcsuper(f, superid, grids):
+''' + _CSUPER_DEF.split('def wtcsuper(f, superid, grids):\n', 1)[1].replace(_CSUPER_TAIL, '''    return f"CSUPER  {superid:8d}{0:8d}", grids
+''')
+
+RECIPES += _pair(_CSUPER_DECORATED % 4, _CSUPER_DECORATED % 5, _CSUPER_DEF, ["C13-R4"],
+                 "wtcsuper: the card written by a decorator of the module (decorator factory, wrapper with *args / **kwargs)", "the integers start one field late")
+
+# ---- refactorings of other kinds written in this pass
+_T1_EAFP = '''    try:
+        {16: 4, 32: 2%s}[n]
+    except KeyError:
+        raise ValueError(
+            f"`form` produces a {n} length string. It must be 16 or 32."
+        ) from None
+'''
+
+_T1_SIO = '''        import io
+
+        last = io.StringIO()
+        last.write("        ")
+        for j in range(%s, npts):
+            last.write(form.format(t[j], d[j]))
+        f.write(last.getvalue())
+    f.write("ENDT\\n")
+'''
+
+_T1_ENUM = '''
+
+import enum
+
+
+class _PairWidth(enum.IntEnum):
+    """rendered width of one [time, data] pair"""
+
+    SMALL = 16
+    LARGE = %d
+'''
+
+_T1_GUARD_BODY = _T1_GUARD + """    if title:
+        f.write(f"$ {title:s}\\n")
+""" + _T1_BODY
+
+
+def _t1_enum(large):
+    return (_T1_GUARD_BODY.replace("if n != 16 and n != 32:", "if n != _PairWidth.SMALL and n != _PairWidth.LARGE:")
+            .replace("    if n == 32:\n", "    if n == _PairWidth.LARGE:\n") + _T1_ENUM % large)
+
+
+_NASINTS_YIELD_FROM = '''    def first_line(n, firstline):
+        if n >= firstline:
+            yield ("{:8d}" * firstline + "\\n").format(*ints[:firstline])
+        else:
+            yield ("{:8d}" * n + "\\n").format(*ints)
+
+    def rest(n, i):
+        while n >= i + 8:
+            yield ("{:8s}" + "{:8d}" * 8 + "\\n").format("", *ints[i : i + 8])
+            i += %d
+        if n > i:
+            yield ("{:8s}" + "{:8d}" * (n - i) + "\\n").format("", *ints[i:])
+
+    def lines():
+        n = len(ints)
+        firstline = 10 - start
+        yield from first_line(n, firstline)
+        if n >= firstline:
+            yield from rest(n, firstline)
+
+    for line in lines():
+        f.write(line)
+'''
+
+_NASINTS_REC = '''    def rest(i):
+        if len(ints) >= i + 8:
+            f.write(("{:8s}" + "{:8d}" * 8 + "\\n").format("", *ints[i : i + 8]))
+            rest(i + %d)
+        elif len(ints) > i:
+            f.write(("{:8s}" + "{:8d}" * (len(ints) - i) + "\\n").format("", *ints[i:]))
+
+    n = len(ints)
+    firstline = 10 - start
+    if n >= firstline:
+        f.write(("{:8d}" * firstline + "\\n").format(*ints[:firstline]))
+        rest(firstline)
+    else:
+        f.write(("{:8d}" * n + "\\n").format(*ints))
+'''
+
+_NASINTS_RETURN = '''    n = len(ints)
+    firstline = 10 - start
+    if n < firstline:
+        f.write(("{:8d}" * n + "\\n").format(*ints))
+        return
+    i = firstline
+    f.write(("{:8d}" * i + "\\n").format(*ints[:i]))
+    while n > i:
+        if n < i + 8:
+            # last line is only partially filled
+%s            return
+        f.write(("{:8s}" + "{:8d}" * 8 + "\\n").format("", *ints[i : i + 8]))
+        i += 8
+'''
+
+_T1_ALIAS = '''        put = f.write
+        put("        ")
+        for j in range(%s, npts):
+            put(form.format(t[j], d[j]))
+    f.write("ENDT\\n")
+'''
+
+_T1_MAP = '''        f.write("        ")
+        for text in map(form.format, %s):
+            f.write(text)
+    f.write("ENDT\\n")
+'''
+
+RECIPES += (
+    _pair(_T1_EAFP % "", _T1_EAFP % ", 24: 3", _T1_GUARD, ["C13-R1"],
+          "tabled1 guard: the rendered width looked up in a literal table, a KeyError turned into the ValueError", "24 is let through")
+    + _pair(_T1_SIO % "r", _T1_SIO % "r + 1", _T1_LEFT_SMALL, ["C13-R1"],
+            "tabled1 small field: the last line assembled in an io.StringIO and written at once", "the loop starts one pair late")
+    + [("C13", "break", ["C13-R1"], B, _T1_LEFT_SMALL, (_T1_SIO % "r").replace("        f.write(last.getvalue())\n", ""),
+        "tabled1 small field: the last line assembled in an io.StringIO -- and never written"),
+       ("C13", "neutral", [], B, _T1_LEFT_SMALL, '''        import io
+
+        with io.StringIO() as last:
+            print("        ", end="", file=last)
+            for j in range(r, npts):
+                print(form.format(t[j], d[j]), end="", file=last)
+            f.write(last.getvalue())
+    f.write("ENDT\\n")
+''', "tabled1 small field: the last line printed into an io.StringIO opened by `with`")]
+    + _pair(_t1_enum(32), _t1_enum(24), _T1_GUARD_BODY, ["C13-R1"],
+            "tabled1: the two pair widths as members of an IntEnum", "the large width is 24")
+    + _pair(_NASINTS_YIELD_FROM % 8, _NASINTS_YIELD_FROM % 7, _NASINTS, ["C13-R4"],
+            "wtnasints: the lines from generators chained by `yield from`", "continuation lines advance by 7")
+    + _pair(_NASINTS_REC % 8, _NASINTS_REC % 7, _NASINTS, ["C13-R4"],
+            "wtnasints: the continuation lines by a nested function that calls itself in tail position", "the next call starts 7 further on")
+    + [("C13", "break", ["C13-R4"], B, _NASINTS, (_NASINTS_REC % 8).replace("        elif len(ints) > i:\n", "        elif len(ints) > i + 1:\n"),
+        "wtnasints by tail recursion -- a last line of one integer is dropped")]
+    + _pair(_NASINTS_RETURN % '            f.write(("{:8s}" + "{:8d}" * (n - i) + "\\n").format("", *ints[i:]))\n', _NASINTS_RETURN % "", _NASINTS, ["C13-R4"],
+            "wtnasints: one loop, left by `return` in the pass that writes the partial last line", "the partial last line is not written")
+    + _pair(_T1_ALIAS % "r", _T1_ALIAS % "r + 1", _T1_LEFT_SMALL, ["C13-R1"],
+            "tabled1 small field: the file's write method bound to a local", "the loop starts one pair late")
+    + [("C13", "neutral", [], B, _T1_LEFT_SMALL, '''        import functools
+
+        emit = functools.partial(print, file=f, end="", sep="")
+        emit("        ")
+        for j in range(r, npts):
+            emit(form.format(t[j], d[j]))
+    f.write("ENDT\\n")
+''', "tabled1 small field: output through functools.partial(print, file=f, end='')")]
+    + _pair(_T1_MAP % "t[r:], d[r:]", _T1_MAP % "d[r:], t[r:]", _T1_LEFT_SMALL, ["C13-R1"],
+            "tabled1 small field: the leftover pairs rendered by map(form.format, ...)", "ordinates rendered before abscissae")
+)
+
+# ---- state and effects that live outside the statement that shows them (third pass, continued): a cursor rebound through `nonlocal`, a
+# ---- comprehension evaluated for its effects, `and` / `or` as a guard, any() / membership in a range as the guard, context managers of the module
+_NASINTS_NONLOCAL = '''    n = len(ints)
+    firstline = 10 - start
+    i = 0
+
+    def put(count, head):
+        nonlocal i
+        if head:
+            f.write(("{:8s}" + "{:8d}" * count + "\\n").format("", *ints[i : i + count]))
+        else:
+            f.write(("{:8d}" * count + "\\n").format(*ints[i : i + count]))
+        i += count
+
+    if n >= firstline:
+        put(firstline, False)
+        while n >= i + 8:
+            put(8, True)
+        if n > i%s:
+            put(n - i, True)
+    else:
+        put(n, False)
+'''
+
+_T1_COMP = '''        f.write("        ")
+        [f.write(form.format(t[j], d[j])) for j in range(%s, npts)]
+    f.write("ENDT\\n")
+'''
+
+
+def _t1_and(test):
+    return _T1_SMALL_VEC.replace("        if rows:\n            writer.vecwrite(", "        if True:\n            %s writer.vecwrite(" % test)
+
+
+_T1_ANY = '''    if not any(n == width for width in (16, 32%s)):
+        raise ValueError(f"`form` produces a {n} length string. It must be 16 or 32.")
+'''
+
+_T1_RANGE = '''    if n not in range(16, 33, %d):
+        raise ValueError(f"`form` produces a {n} length string. It must be 16 or 32.")
+'''
+
+_T1_BODY_IN_WITH = "".join(("    " + ln if ln.strip() else ln) for ln in _T1_BODY.replace('    f.write("ENDT\\n")\n', "").splitlines(True))
+
+_T1_CTX_CLASS = '''    with _Closing(f, "%s\\n"):
+''' + _T1_BODY_IN_WITH + '''
+
+class _Closing:
+    """writes `text` to `f` when the block is left"""
+
+    def __init__(self, f, text):
+        self.f = f
+        self.text = text
+
+    def __enter__(self):
+        return self
+
+    def __exit__(self, *exc):
+        self.f.write(self.text)
+        return False
+'''
+
+_T1_CTX_GEN = '''    with _closing(f, "%s\\n"):
+''' + _T1_BODY_IN_WITH + '''
+
+import contextlib
+
+
+@contextlib.contextmanager
+def _closing(f, text):
+    """writes `text` to `f` when the block is left"""
+    try:
+        yield f
+    finally:
+        f.write(text)
+'''
+
+RECIPES += (
+    _pair(_NASINTS_NONLOCAL % "", _NASINTS_NONLOCAL % " + 1", _NASINTS, ["C13-R4"],
+          "wtnasints: the position kept by a nested function that rebinds it through `nonlocal`", "a last line of one integer is dropped")
+    + _pair(_T1_COMP % "r", _T1_COMP % "r + 1", _T1_LEFT_SMALL, ["C13-R1"],
+            "tabled1 small field: the leftover pairs written by a list comprehension evaluated for its effects", "the loop starts one pair late")
+    + _pair(_t1_and("rows and"), _t1_and("rows >= 0 and"), _T1_SMALL_VEC, ["C13-R2"],
+            "tabled1 small field: the vectorised write guarded by `rows and ...`", "the guard lets zero full lines through")
+    + [("C13", "neutral", [], B, _T1_SMALL_VEC, _t1_and("rows == 0 or"), "tabled1 small field: the vectorised write guarded by `rows == 0 or ...`")]
+    + _pair(_T1_ANY % "", _T1_ANY % ", 24", _T1_GUARD, ["C13-R1"], "tabled1 guard: any() over the two widths", "24 is let through")
+    + _pair(_T1_RANGE % 16, _T1_RANGE % 8, _T1_GUARD, ["C13-R1"], "tabled1 guard: membership in range(16, 33, 16)", "24 is let through")
+    + _pair(_T1_CTX_CLASS % "ENDT", _T1_CTX_CLASS % "END", _T1_BODY, ["C13-R1"],
+            "tabled1: ENDT written by the __exit__ of a context manager class of the module", "END instead of ENDT")
+    + _pair(_T1_CTX_GEN % "ENDT", _T1_CTX_GEN % "END", _T1_BODY, ["C13-R1"],
+            "tabled1: ENDT written after the `yield` of a contextlib.contextmanager generator", "END instead of ENDT")
+)
+
+# ---- the last line collected in a list that already holds the head (directly, and through a closure that appends to it), joined and written at once
+_T1_COLLECT = '''        pieces = ["        "]
+        for j in range(%s, npts):
+            pieces.append(form.format(t[j], d[j]))
+        f.write("".join(pieces))
+    f.write("ENDT\\n")
+'''
+
+_T1_COLLECT_CLOSURE = '''        pieces = []
+
+        def put(text):
+            pieces.append(text)
+
+        put("%s")
+        for j in range(r, npts):
+            put(form.format(t[j], d[j]))
+        f.write("".join(pieces))
+    f.write("ENDT\\n")
+'''
+
+RECIPES += (
+    _pair(_T1_COLLECT % "r", _T1_COLLECT % "r + 1", _T1_LEFT_SMALL, ["C13-R1"],
+          "tabled1 small field: the last line collected in a list that starts with the head, joined and written at once", "the loop starts one pair late")
+    + _pair(_T1_COLLECT_CLOSURE % "        ", _T1_COLLECT_CLOSURE % "       ", _T1_LEFT_SMALL, ["C13-R1"],
+            "tabled1 small field: the pieces of the last line appended to a list of the enclosing function by a nested function", "a head of seven blanks")
+)
